@@ -344,6 +344,9 @@ class Check(Property):
         # other magnitude types: the same helpers on float, Decimal and uncertain magnitudes agree numerically with the exact answers
         if mult and want is not None and Fraction(c["a"]["m"]) != 0 and all(Fraction(e).denominator == 1 for _, e in c["a"]["u"]):
             v.extend(self.oracle_types(P, c, want))
+        if not getattr(self, "_fixed_done", False):
+            self._fixed_done = True
+            v.extend(self.preferred_probes())
         if mult and want is not None and all(Fraction(e).denominator == 1 for _, e in c["a"]["u"]):
             v.extend(self.oracle_arrays(c, tag))
         # passthrough
@@ -359,6 +362,23 @@ class Check(Property):
             except Exception as exc:  # noqa: BLE001
                 if mult:
                     v.append(f"{tag}: to_compact of magnitude {special!r} raised {type(exc).__name__}")
+        return v
+
+    def preferred_probes(self):
+        """to_preferred picks a preferred unit of the same dimension (exponents proportional), never another one"""
+        v = []
+        u = regs.fresh("float")
+        for s, pref in (("meter**2*second", ["meter*second"]), ("meter**3/second", ["meter/second"]), ("meter**2*second**2", ["meter*second"]),
+                        ("kilogram*meter/second**2", ["newton"]), ("meter**2/second**2", ["meter/second", "joule"])):
+            q = u.Quantity(3.0, s)
+            try:
+                with warnings.catch_warnings():
+                    warnings.simplefilter("ignore")
+                    r = q.to_preferred([u.Unit(p_) for p_ in pref])
+                if r.dimensionality != q.dimensionality or not math.isclose(r.to_root_units().magnitude, q.to_root_units().magnitude, rel_tol=1e-12):
+                    v.append(f"C15 {q!r}.to_preferred({pref}) = {r!r}: dimensionality or value changed")
+            except Exception as exc:  # noqa: BLE001
+                v.append(f"C15 {q!r}.to_preferred({pref}) raised {type(exc).__name__}: {exc}")
         return v
 
     def oracle_arrays(self, c, tag):
